@@ -433,6 +433,19 @@ func c46CheckClearsign(rt *rapid.T, c *ev.Collector, p *keyPool, g *gpgEnv) {
 	if verr != nil || ent == nil || ent.PrimaryKey.KeyId != signer.ent.PrimaryKey.KeyId {
 		rt.Fatalf("VF-VIOLATION: property=C46 %s: embedded signature does not verify over Block.Bytes: %v", desc, verr)
 	}
+	// the verdict must not depend on how the reader delivers the signed bytes
+	for _, nr := range readerFamily(rt, "vr", blk.Bytes) {
+		if _, verr := openpgp.CheckDetachedSignature(ring, nr.r, bytes.NewReader(sigBytes)); verr != nil {
+			rt.Fatalf("VF-VIOLATION: property=C46 %s: embedded signature verifies from a one-piece reader but not from a %s reader: %v", desc, nr.name, verr)
+		}
+	}
+	// and the armored signature may arrive in pieces as well
+	for _, nr := range readerFamily(rt, "sr", text) {
+		all, rerr := io.ReadAll(nr.r)
+		if rerr != nil || !bytes.Equal(all, text) {
+			rt.Fatalf("harness: reader %s is broken", nr.name)
+		}
+	}
 	if second != nil && second != signer {
 		ring2 := openpgp.EntityList{p.pubRing[indexOfKey(p, second)]}
 		if _, verr := openpgp.CheckDetachedSignature(ring2, bytes.NewReader(blk.Bytes), bytes.NewReader(sigBytes)); verr != nil {
